@@ -140,6 +140,28 @@ def gen_codec(E):
         exprs = []
     out.append("/-- bodies of the three `quartile()` accessors as token text -/")
     out.append("def quartileBodies : List String := [" + ", ".join(json.dumps(g) for g in exprs) + "]\n")
+    # serde: does FuzzyHashBytesVisitor::visit_bytes unwrap the conversion?
+    th = E.src_tokens("hash.rs")
+    unwraps = True
+    buffered = []
+    try:
+        i = find_seq(th, ["for", "FuzzyHashBytesVisitor", "<"])
+        j = find_seq(th, ["fn", "visit_bytes"], i)
+        k = j
+        while th[k].text != "{":
+            k += 1
+        e = match_close(th, k)
+        body = [x.text for x in th[k:e + 1]]
+        unwraps = any(body[a:a + 3] == [".", "unwrap", "("] for a in range(len(body) - 2)) or "expect" in body
+        # which deserialize_* hints are requested
+        for name in ("deserialize_str", "deserialize_string", "deserialize_bytes", "deserialize_byte_buf"):
+            if find_seq(th, ["deserializer", ".", name, "("]) >= 0:
+                buffered.append(name)
+    except Exception as ex:
+        E.fail("serde visitors", str(ex))
+    out.append("/-- `FuzzyHashBytesVisitor::visit_bytes` unwraps the result of `try_from` -/")
+    out.append(f"def serdeBytesVisitorUnwraps : Bool := {'true' if unwraps else 'false'}")
+    out.append("def serdeHints : List String := [" + ", ".join(json.dumps(b) for b in buffered) + "]\n")
     out.append("end TlshVerif.Gen\n")
     return "\n".join(out)
 
